@@ -279,8 +279,9 @@ CHECKS = {
    note='two genuine defects repaired (F40 small decimals rejected on resolution; F43 Reader decoded writer references '
         'with the reader schema\'s definitions); the specification oracle prefers an identical type over the same '
         'underlying type over a promotion when the reader is a union (the literal "first match" would contradict the '
-        'property\'s own idempotence clause) - see DESIGN.md; idempotence and result-validates are proved for leaves '
-        'only, checked by the correspondence for containers and unions',
+        'property\'s own idempotence clause) - see DESIGN.md; idempotence and result-validates are proved at every depth for '
+        'leaves, arrays, maps and records (plain fixed excluded: a string read as a fixed is not idempotent), and checked by the '
+        'correspondence through unions and references',
    technique='Coq executable specification + theorems on the resolve model + refutation witnesses; differential check against the extracted specification',
    design='DESIGN.md 5/C08'),
  'C09': dict(
